@@ -151,7 +151,7 @@ func c16Run(t *testing.T, tr *kit.Trace, lazy bool, ops []c16Op, src string) {
 		quiesce()
 		var held []net.Conn
 		closed := false
-		call := func(g int, udp bool) {
+		call := func(g int, udp bool) string {
 			tr.Ev(kit.E{"ev": "Call", "g": g})
 			var err error
 			if udp {
@@ -170,6 +170,7 @@ func c16Run(t *testing.T, tr *kit.Trace, lazy bool, ops []c16Op, src string) {
 				}
 			}
 			tr.Ev(kit.E{"ev": "Ret", "g": g, "kind": c16Kind(err), "err": fmt.Sprint(err)})
+			return c16Kind(err)
 		}
 		release := func() {
 			mu.Lock()
@@ -228,6 +229,61 @@ func c16Run(t *testing.T, tr *kit.Trace, lazy bool, ops []c16Op, src string) {
 					rc.Close()
 					tr.Ev(kit.E{"ev": "CloseRet"})
 				}
+			case "inflight":
+				// Several callers have a request in flight (parked in the server's outbound dial) when the connection is
+				// lost; each gets the loss reported and simply tries again.  The first retry reconnects while holding the
+				// client's mutex, the other callers reach their own loss handling only after that: they hold a reference to
+				// the OLD connection and must leave the new one alone.
+				mu.Lock()
+				skip := closed || cfgFail || srvDown
+				mu.Unlock()
+				if skip {
+					continue
+				}
+				if call(op.G, false) != "ok" {
+					release()
+					break
+				}
+				release()
+				hang := make(chan struct{})
+				w.mu.Lock()
+				w.dialErr = func(a string) string {
+					if _, o := e2eParseTarget(a); o >= 500 && o < 600 {
+						<-hang
+						return "refused"
+					}
+					return ""
+				}
+				w.mu.Unlock()
+				var wg sync.WaitGroup
+				nw := 2 + i%3
+				for k := 0; k < nw; k++ {
+					wg.Add(1)
+					go func(k int) {
+						defer wg.Done()
+						call(500+k, false)
+						for a := 0; a < 3; a++ {
+							if call(600+k*3+a, false) == "ok" {
+								break
+							}
+						}
+					}(k)
+				}
+				synctest.Wait() // every request is parked at the target's door
+				f.mu.Lock()
+				sk := f.last
+				f.mu.Unlock()
+				if sk != nil && !sk.IsClosed() {
+					sk.Kill()
+					tr.Ev(kit.E{"ev": "Kill", "sock": sk.id})
+					time.Sleep(6 * time.Second)
+				}
+				close(hang)
+				wg.Wait()
+				w.mu.Lock()
+				w.dialErr = nil
+				w.mu.Unlock()
+				release()
 			case "closerace":
 				// A's reconnect is parked inside the configuration function (holding the client's mutex); Close() queues
 				// behind it, then call B queues behind Close(); A's reconnect then fails.  Whatever B does, it must not
@@ -322,6 +378,9 @@ func TestVerif_C16(t *testing.T) {
 		{op("closerace"), call(2)},                              // lazy start: Close racing the very first connect
 		{call(1), op("kill"), call(2), op("closerace"), call(3)}, // after a loss
 		{call(1), op("kill"), call(2), op("srv"), call(3), op("srv"), op("closerace")},
+		{c16Op{Op: "inflight", G: 1}, call(2)}, // requests in flight when the connection is lost, everybody retries
+		{call(1), op("kill"), c16Op{Op: "inflight", G: 2}, c16Op{Op: "inflight", G: 3}, call(4), op("close")},
+		{call(1), c16Op{Op: "inflight", G: 2}, lim, c16Op{Op: "inflight", G: 3}},
 	}
 	for i, f := range fam {
 		c16Run(t, tr, i%2 == 1, f, "family")
@@ -349,6 +408,8 @@ func TestVerif_C16(t *testing.T) {
 				ops = append(ops, c16Op{Op: "srv"})
 			case x < 94 && k > 3:
 				ops = append(ops, c16Op{Op: "close"})
+			case x < 97:
+				ops = append(ops, c16Op{Op: "inflight", G: 1 + k})
 			default:
 				ops = append(ops, c16Op{Op: "call", G: 1 + k})
 			}
